@@ -11,12 +11,10 @@ NOTES = {
     "C16-F": "thorough tier only: needs one track with more than 2^24 events (C16 'beyond-2^24-events', confirmed against the change)",
     "C14-A": "manifests only on streams outside C14's stated domain (aborted / oversized sysex); caught by C06, which quantifies over all byte streams",
     "C14-C": "manifests only on streams outside C14's stated domain; caught by C06",
-    "C19-D": "needs 100 or more consecutive empty reads of the source: deliberately outside the domain the C19 monitor drives (an io.Reader may return 0, nil only occasionally)",
     "C06-H": "thorough tier only: needs one sysex with more than 2^32 data bytes (about 20 s of CPU; C06 'sysex-beyond-2^32-bytes', confirmed against the change)",
     "C19-G": "a package-level scratch buffer shared by the Send of two out-ports of the process-backed driver: outside C19's domain (the line format and its reader); caught by C17 (race detector report and torn lines)",
     "C14-I": "manifests only on streams outside C14's stated domain (running-status data bytes directly behind a sysex: not a legal elision); caught by C06, which quantifies over all byte streams",
     "C06-N": "thorough tier only: needs one sysex with more than 2^32 data bytes (same group as C06-H, 'sysex-beyond-2^32-bytes')",
-    "C19-M": "needs 100 or more consecutive empty reads of the source (as C19-D): deliberately outside the domain the C19 monitor drives",
     "C17-N": "the reader of the in-port dies on a line of more than 64 KiB; nothing arrives any more, so the run ends 'inconclusive' (sentinel never observed), never 'held': an asynchronous pipeline gives no proof of loss",
     "C17-F": "detection depends on which helper process dies first: violated (Send fails) in most runs, otherwise inconclusive (probe never observed), never 'held'",
 }
